@@ -142,13 +142,74 @@ func (ts *TermStore) Var(w uint8, name string) *Term {
 	return ts.mk(OpVar, w, 0, name)
 }
 
-// norm applies the per-path substitution.
+// norm applies the per-path substitution (to the term itself and, for small
+// wrappers, to its operands).
 func (ts *TermStore) norm(t *Term) *Term {
 	if t.Op == OpConst || len(ts.subst) == 0 {
 		return t
 	}
+	return ts.normD(t, 3)
+}
+
+func (ts *TermStore) normD(t *Term, depth int) *Term {
+	if t.Op == OpConst {
+		return t
+	}
 	if c, ok := ts.subst[t]; ok {
 		return c
+	}
+	if depth == 0 || t.Op == OpVar {
+		return t
+	}
+	switch t.Op {
+	case OpZext, OpSext, OpExtract, OpNot, OpBvNot, OpBvNeg:
+		a := ts.normD(t.Args[0], depth-1)
+		if a == t.Args[0] {
+			return t
+		}
+		sub := ts.subst
+		ts.subst = nil
+		var r *Term
+		switch t.Op {
+		case OpZext:
+			r = ts.Zext(a, t.W)
+		case OpSext:
+			r = ts.Sext(a, t.W)
+		case OpExtract:
+			r = ts.Extract(a, uint8(t.Val>>8), uint8(t.Val&0xff))
+		case OpNot:
+			r = ts.Not(a)
+		case OpBvNot:
+			r = ts.BvNot(a)
+		case OpBvNeg:
+			r = ts.BvNeg(a)
+		}
+		ts.subst = sub
+		return r
+	case OpEq, OpUlt, OpUle, OpSlt, OpSle, OpConcat, OpBvAnd, OpBvOr, OpBvAdd, OpBvSub, OpAnd, OpOr:
+		a, b := ts.normD(t.Args[0], depth-1), ts.normD(t.Args[1], depth-1)
+		if a == t.Args[0] && b == t.Args[1] {
+			return t
+		}
+		sub := ts.subst
+		ts.subst = nil
+		var r *Term
+		switch t.Op {
+		case OpEq:
+			r = ts.Eq(a, b)
+		case OpUlt, OpUle, OpSlt, OpSle:
+			r = ts.cmp(t.Op, a, b)
+		case OpConcat:
+			r = ts.Concat(a, b)
+		case OpAnd:
+			r = ts.And(a, b)
+		case OpOr:
+			r = ts.Or(a, b)
+		default:
+			r = ts.Bin(t.Op, a, b)
+		}
+		ts.subst = sub
+		return r
 	}
 	return t
 }
